@@ -1,1 +1,79 @@
-LOOPS = {}
+"""Loop contracts and ghost code spliced into the extracted functions of unit civil.
+
+LOOPS[f][n]  : contract clauses of the n-th loop of f (1-based, source order)
+GHOST[f][0]  : ghost declarations at function entry;  GHOST[f][n]: immediately before loop n
+HOOKS[f]     : (regex on the first tokens of a statement, ghost text) - ghost text is inserted
+               immediately before the one statement the regex matches (must match exactly once)
+
+Ghost code only declares const ghost values, calls lemma functions whose contracts are proved
+separately (harness/civil.c) and have `assigns()`, or states a cut (assert P; assume P).  It is
+compiled only under VERIF_CBMC; the native differential build of the extracted C omits it.
+
+n_day proof idea.  With qc=cd/146097, qd=d/146097 (truncating, as the code computes them) the
+code first moves K = 400*(qc+qd) years in bulk; everything after that happens within a few
+hundred years of y%400.  So all in-function facts are stated on the *small* year E = ey - K and
+on 32-bit ordinals ORD_I; the passage to the real 64-bit year / 128-bit ordinal is the job of
+the code-free lemmas lemma_shift400 and lemma_nday_lift.
+"""
+
+NDAY_GHOST0 = """
+const year_t g_qc = cd / 146097;
+const year_t g_qd = d / 146097;
+const year_t g_K = g_qc * 400 + g_qd * 400;
+const int g_R = (int)(cd % 146097) + (int)(d % 146097);
+const int g_O = (int)(y % 400);
+const int g_m0 = m;
+const diff_t g_d0 = d;
+const diff_t g_cd0 = cd;
+lemma_quot_bounds(cd, d);
+"""
+# E: the small year; the day/month-relative conservation law
+E = "((int)((Z)ey - (Z)g_K))"
+E_RANGE = "(-1300 <= (Z)ey - (Z)g_K && (Z)ey - (Z)g_K <= 2100)"
+CONS_Y = "(ORD_I(%s, m, 1) + (int)d - 1 == ORD_I(g_O, g_m0, 1) + g_R - 1)" % E
+CONS_M = "(ORD_I(%s, m, (int)d) == ORD_I(g_O, g_m0, 1) + g_R - 1)" % E
+CYC = "(m > 2 ? 1 : 0)"
+
+CUT_A = "(1 <= d && d <= 146097 && m == g_m0 && -1300 <= (Z)ey - (Z)g_K && (Z)ey - (Z)g_K <= 800 && %s)" % CONS_Y
+CUT_B = "(1 <= d && d <= 366 && m == g_m0 && %s && %s)" % (E_RANGE, CONS_Y)
+
+YEAR_COMMON = """
+__CPROVER_loop_invariant(1 <= d && d <= g_DA && g_DA <= 146097 && m == g_m0)
+__CPROVER_loop_invariant(-1300 <= (Z)g_EA - (Z)g_K && (Z)g_EA - (Z)g_K <= 800)
+__CPROVER_loop_invariant(g_EA <= ey && (Z)365 * ((Z)ey - (Z)g_EA) <= (Z)g_DA - (Z)d)
+__CPROVER_loop_invariant(%s)
+""" % CONS_Y
+YI_INV = "__CPROVER_loop_invariant(0 <= yi && yi < 400 && yi == FM(%s + %s, 400))\n" % (E, CYC)
+
+LOOPS = {
+    'n_day': {
+        1: "__CPROVER_assigns(d, ey, yi)" + YEAR_COMMON + YI_INV + "__CPROVER_decreases(d)",
+        2: "__CPROVER_assigns(d, ey, yi)" + YEAR_COMMON + YI_INV + "__CPROVER_decreases(d)",
+        3: "__CPROVER_assigns(d, ey)" + YEAR_COMMON + "__CPROVER_decreases(d)",
+        4: """__CPROVER_assigns(d, ey, m)
+__CPROVER_loop_invariant(1 <= m && m <= 12 && 1 <= d && d <= g_DB && g_DB <= 366)
+__CPROVER_loop_invariant(-1300 <= (Z)g_EB - (Z)g_K && (Z)g_EB - (Z)g_K <= 2000)
+__CPROVER_loop_invariant(g_EB <= ey && (Z)28 * ((Z)12 * ((Z)ey - (Z)g_EB) + ((Z)m - (Z)g_m0)) <= (Z)g_DB - (Z)d)
+__CPROVER_loop_invariant(%s)
+__CPROVER_decreases(d)""" % CONS_M,
+    },
+}
+GHOST = {
+    'n_day': {
+        0: NDAY_GHOST0,
+        1: "const year_t g_EA = ey;\nconst diff_t g_DA = d;",
+        4: "const year_t g_EB = ey;\nconst diff_t g_DB = d;",
+    },
+}
+HOOKS = {
+    'n_day': [
+        # the previous-year shortcut: days_per_year(ey, m) is about the 64-bit year ey; relate it to E
+        (r'd \+= days_per_year \( ey , m \)', "lemma_shift400(ey + %s, g_qc, g_qd);" % CYC),
+        (r'if \( d > 365 \)', '__CPROVER_assert(%s, "ghost cut A: state after the 400-year reduction");\n__CPROVER_assume(%s);' % (CUT_A, CUT_A)),
+        (r'int yi = year_index \( ey , m \)', "lemma_shift400(ey + %s, g_qc, g_qd);" % CYC),
+        (r'int n = days_per_year \( ey , m \)', "lemma_shift400(ey + %s, g_qc, g_qd);" % CYC),
+        (r'if \( d > 28 \)', '__CPROVER_assert(%s, "ghost cut B: state after the year loops");\n__CPROVER_assume(%s);' % (CUT_B, CUT_B)),
+        (r'int n = days_per_month \( ey , m \)', "lemma_shift400(ey, g_qc, g_qd);"),
+        (r'return fields \(', "lemma_shift400(ey, g_qc, g_qd);\nlemma_nday_lift(y, g_m0, g_d0, g_cd0, ey, oey, m, d, WRAP_RY(y, ey, oey));"),
+    ],
+}
